@@ -220,6 +220,8 @@ class Interp(StmtMixin, ExtMixin, OpsMixin, InterpCore):
     #   for V in range(0, len(X), K):  <emit ... X[V:V+K] ...>
     # writes the items of X in rows of K (the last row may be short): the same SChunk the append/flush idiom denotes.
     def s_For(self, st, env):
+        if self.for_over_product(st, env):
+            return
         sl = self.match_slice_rows(st, env)
         if sl is None:
             return StmtMixin.s_For(self, st, env)
@@ -251,6 +253,39 @@ class Interp(StmtMixin, ExtMixin, OpsMixin, InterpCore):
         c.prefix = row["prefix"]
         del b.pieces[len(b.pieces) - len(new):]
         b.pieces.append(c)
+
+    def for_over_product(self, st, env):
+        """for a, b in itertools.product(X, Y): body   ==   X, Y evaluated once;  for a in X: for b in Y: body"""
+        it = st.iter
+        if not (isinstance(it, ast.Call) and not it.keywords and len(it.args) >= 2 and isinstance(st.target, (ast.Tuple, ast.List))
+                and len(st.target.elts) == len(it.args) and not st.orelse and not any(isinstance(a, ast.Starred) for a in it.args)):
+            return False
+        fn = self.eval(it.func, env)
+        if not (isinstance(fn, ExtV) and fn.name == "itertools.product"):
+            return False
+        pools = []
+        for a in it.args:
+            v = self.eval(a, env)
+            pools.append(self.as_iterable(v, st))      # product() drains its inputs before the first tuple
+        if all(isinstance(q, ListV) and not getattr(q, "tail", None) for q in pools):
+            return False
+        names = []
+        for q in pools:
+            nm = "_product_pool_%d" % next(self.fresh)
+            env.vars[nm] = q
+            names.append(nm)
+        body = st.body
+        for tgt, nm in reversed(list(zip(st.target.elts, names))):
+            loop = ast.For(target=tgt, iter=ast.Name(id=nm, ctx=ast.Load()), body=body, orelse=[])
+            ast.copy_location(loop, st)
+            ast.fix_missing_locations(loop)
+            body = [loop]
+        try:
+            self.exec_stmt(body[0], env)
+        finally:
+            for nm in names:
+                env.vars.pop(nm, None)
+        return True
 
     def match_slice_rows(self, st, env):
         it = st.iter
